@@ -15,8 +15,9 @@ def run(prog, chk):
         "no bounds-checked array access, no panicking String/Vec edit API; every usize subtraction is behind a dominating comparison; "
         "string slicing happens only through str::get; spans are pushed and the cursor advanced only inside append_span, where the gap "
         "filler is pushed under `start > current_byte_index`, and every span starts at (a maximum with) current_byte_index with both "
-        "bounds clamped to character boundaries, which makes ordered / contiguous / non-overlapping / char-aligned structural. "
-        "Not decided: that the final cursor equals the line length for every line (coverage of the tail relies on the last skip_ahead).")
+        "bounds clamped to character boundaries inside the line; every path of highlight_program ends with a span/skip up to "
+        "global_offset + line.len(), run by highlight_command over the whole line at offset 0; the renderer pushes every span's text. "
+        "Ordered / contiguous / non-overlapping / char-aligned / covering are structural. Not decided: the kind each span gets.")
     chk.assumptions = ["rustc MIR of a debug-assertions build", "str::get returns None instead of panicking"]
     chk.rule("R19.1", "no unchecked slicing/indexing/unwrap/edit API in the highlighter; usize subtractions guarded; str::get used for slicing")
     sites, nb = c01._enumerate(prog, scope=lambda fn: fn.startswith(MOD), crates={"brush_interactive"})
@@ -116,3 +117,225 @@ def run(prog, chk):
             chk.ok("R19.2", "gap-filler-conditional", "gap span pushed only under a comparison of range.start with current_byte_index", function=ap.name)
         else:
             chk.fail("R19.2", ap.name, "gap-filler-unconditional", "append_span no longer compares range.start with current_byte_index before filling the gap")
+
+    tail_coverage_rule(prog, chk)
+    clamp_rule(prog, chk)
+    render_rule(prog, chk)
+
+
+def _flows_line_end(b, d, op):
+    """does `op` derive from both the offset argument (_3) and str::len of the line argument (_2)?"""
+    from dataflow import flow_back
+    fl = flow_back(b, d, op, all_args=True)
+    has_len = any(f.kind == 'arg' and f.local == 2 and any(v.endswith("str::len") for v in f.via) for f in fl)
+    has_off = any(f.kind == 'arg' and f.local == 3 for f in fl)
+    return has_len and has_off
+
+
+def tail_coverage_rule(prog, chk):
+    """R19.4: the spans reach the end of the line. highlight_program ends, on every path (tokenizer success and failure), with a
+    bookkeeping call (skip_ahead / append_span) whose destination is global_offset + line.len(); highlight_command runs it over the very
+    line the Highlighter was built for, at offset 0, before the spans are taken. With R19.3 (each span starts at the cursor, the cursor
+    becomes its end) and R19.5 (bounds are clamped to the line) the final cursor equals the line length: every byte is covered."""
+    chk.rule("R19.4", "every path through highlight_program ends with a span/skip whose end is global_offset + line.len(); highlight_command "
+                      "runs it over the Highlighter's own line at offset 0 before taking the spans")
+    hp = prog.body(MOD + "Highlighter::highlight_program")
+    if chk.anchor("R19.4", MOD + "Highlighter::highlight_program", hp):
+        c = cfg_of(hp)
+        d = defs_of(hp)
+        tails = []
+        for bb, t in hp.calls():
+            cal = t.best_callee() or ""
+            if cal.endswith("Highlighter::skip_ahead") and len(t.args) == 2 and _flows_line_end(hp, d, t.args[1]):
+                tails.append(bb)
+            elif cal.endswith("Highlighter::append_span") and len(t.args) == 3:
+                for o in origins(hp, d, t.args[2], transparent=set()):
+                    if o.kind == 'agg' and (o.node.adt or "").endswith("ops::range::Range") and _flows_line_end(hp, d, o.node.ops[1]):
+                        tails.append(bb)
+        chk.floor("R19.4", "tail bookkeeping calls in highlight_program", len(tails), 2)
+        w = c.escapes(0, tails, c.return_blocks(), after=False)
+        if w is None and tails:
+            chk.ok("R19.4", "tail-on-every-path", "%d tail calls (lines %s) cut every entry→return path" % (len(tails), sorted({hp.blocks[x].term.line for x in tails})), function=hp.name)
+        else:
+            chk.fail("R19.4", hp.name, "path-without-tail-span",
+                     "a path through highlight_program returns without covering the rest of the line up to global_offset + line.len() (via line %s): "
+                     "text after the last token (trailing blanks, a comment) gets no span and is not rendered"
+                     % ([hp.blocks[x].term.line for x in (w or [])][-2:] or "?"))
+    hc = prog.body(MOD + "highlight_command")
+    if chk.anchor("R19.4", MOD + "highlight_command", hc):
+        d = defs_of(hc)
+        c = cfg_of(hc)
+        news = [(bb, t) for bb, t in hc.calls() if (t.best_callee() or "").endswith("Highlighter::new")]
+        progs = [(bb, t) for bb, t in hc.calls() if (t.best_callee() or "").endswith("Highlighter::highlight_program")]
+        from dataflow import base_local
+        if len(news) == 1 and len(progs) == 1:
+            nl = base_local(hc, d, news[0][1].args[1])
+            pl = base_local(hc, d, progs[0][1].args[1])
+            off = const_value_of(hc, d, progs[0][1].args[2])
+            same = nl is not None and nl == pl and 1 <= nl <= hc.argc
+            if same and off == 0 and all(c.dominates(progs[0][0], r) for r in c.return_blocks()):
+                chk.ok("R19.4", "whole-line-at-offset-0", "highlight_program(line, 0) over the Highlighter's own line dominates the return", function=hc.name)
+            else:
+                chk.fail("R19.4", hc.name, "program-not-whole-line", "highlight_command no longer runs highlight_program over the Highlighter's own line at offset 0 "
+                         "(same line: %s, offset: %s)" % (same, off))
+        else:
+            chk.fail("R19.4", hc.name, "entry-shape", "expected one Highlighter::new and one highlight_program call (found %d, %d)" % (len(news), len(progs)))
+
+
+def const_value_of(b, d, op):
+    from dataflow import const_value
+    return const_value(b, d, op)
+
+
+def clamp_rule(prog, chk):
+    """R19.5: floor_char_boundary / ceil_char_boundary first clamp the index to the line length (Ord::min with input_line.len()), and the
+    loop that looks for a boundary starts from that clamped value. Without the clamp ceil_char_boundary(index > len) never terminates
+    (is_char_boundary is false beyond the end) and floor would hand out an offset past the line."""
+    from dataflow import flow_back
+    chk.rule("R19.5", "the char-boundary clamps start from min(index, input_line.len()): no span bound exceeds the line, the search loops terminate")
+    n = 0
+    for nm in ("floor_char_boundary", "ceil_char_boundary"):
+        b = prog.body(MOD + "Highlighter::" + nm)
+        if not chk.anchor("R19.5", MOD + "Highlighter::" + nm, b):
+            continue
+        n += 1
+        c = cfg_of(b)
+        d = defs_of(b)
+        mins = []
+        for bb, t in b.calls():
+            if (t.best_callee() or t.callee or "").endswith("cmp::Ord::min") and len(t.args) == 2:
+                fl = [f for a in t.args for f in flow_back(b, d, a, all_args=True)]
+                if any("input_line" in f.field_path() and any(v.endswith("str::len") for v in f.via) for f in fl) and any(f.kind == 'arg' and f.local == 2 for f in fl):
+                    mins.append(bb)
+        probes = [bb for bb, t in b.calls() if (t.best_callee() or t.callee or "").endswith("str::is_char_boundary")]
+        if not mins:
+            chk.fail("R19.5", b.name, "index-not-clamped-to-line", "%s does not clamp its index with min(index, input_line.len()) any more: offsets past the end of the line "
+                     "reach the spans (and ceil_char_boundary cannot terminate)" % nm)
+            continue
+        if probes and all(any(c.dominates(m, p) for m in mins) for p in probes):
+            # the value that is returned derives from the min() result
+            rets_ok = True
+            for bl in b.blocks:
+                for st in bl.stmts:
+                    if st.kind == 'a' and st.place.is_local() and st.place.local == 0:
+                        fl = flow_back(b, d, st.rv.ops[0], all_args=False) if st.rv.ops else []
+                        if not any(any(v.endswith("cmp::Ord::min") for v in f.via) for f in fl):
+                            rets_ok = False
+            if rets_ok:
+                chk.ok("R19.5", "clamped:" + nm, "min(index, input_line.len()) dominates the boundary search and feeds the result", function=b.name)
+            else:
+                chk.fail("R19.5", b.name, "result-not-from-clamped-index", "%s returns a value that does not derive from the clamped index" % nm)
+        else:
+            chk.fail("R19.5", b.name, "search-before-clamp", "%s probes is_char_boundary before clamping the index" % nm)
+    chk.floor("R19.5", "char-boundary clamp functions", n, 2)
+
+
+ITER_OK = ("Deref>::deref", "[T]::iter", "iterator::Iterator::map", "Highlighted::text", "slice::<impl [T]>::iter")
+
+
+def render_rule(prog, chk):
+    """R19.6: what is rendered is the concatenation of the span texts. Highlighted::iter maps every span (no filtering / skipping
+    adapter) through Highlighted::text, which slices the highlighted line itself by the span's own range; and every consumer of
+    highlight_command that builds styled text pushes the text of each item on every path of its loop."""
+    from dataflow import flow_back
+    chk.rule("R19.6", "rendering: Highlighted::iter yields every span's text (slice of the line by the span's range); each consumer pushes every item")
+    it = prog.body(MOD + "Highlighted::iter")
+    if chk.anchor("R19.6", MOD + "Highlighted::iter", it):
+        bad = []
+        for b in [it] + [x for x in prog.all_bodies({"brush_interactive"}) if x.name.startswith(MOD + "Highlighted::iter::{closure")]:
+            for _, t in b.calls():
+                cal = t.best_callee() or t.callee or ""
+                if not cal.endswith(ITER_OK):
+                    bad.append(cal)
+        has_text = any((t.best_callee() or "").endswith("Highlighted::text") for x in prog.all_bodies({"brush_interactive"})
+                       if x.name.startswith(MOD + "Highlighted::iter::{closure") for _, t in x.calls())
+        if bad:
+            chk.fail("R19.6", it.name, "spans-filtered", "Highlighted::iter passes the spans through %s: not every span reaches the renderer, so the rendered text differs "
+                     "from the typed line" % sorted(set(x.rsplit("::", 1)[-1] for x in bad)))
+        elif not has_text:
+            chk.fail("R19.6", it.name, "text-not-from-span", "Highlighted::iter no longer resolves the text of each span through Highlighted::text")
+        else:
+            chk.ok("R19.6", "iter-maps-every-span", "spans.iter().map(text): no filtering adapter", function=it.name)
+    tx = prog.body(MOD + "Highlighted::text")
+    if chk.anchor("R19.6", MOD + "Highlighted::text", tx):
+        d = defs_of(tx)
+        gets = [(bb, t) for bb, t in tx.calls() if (t.best_callee() or t.callee or "").endswith("str::get")]
+        good = False
+        for bb, t in gets:
+            rf = flow_back(tx, d, t.args[0], all_args=False)
+            gf = flow_back(tx, d, t.args[1], all_args=False)
+            if any(f.kind == 'arg' and f.local == 1 and "line" in f.field_path() for f in rf) and \
+               any(f.kind == 'arg' and f.local == 2 and "range" in f.field_path() for f in gf):
+                good = True
+        ret_from_get = False
+        for bl in tx.blocks:
+            for st in bl.stmts:
+                if st.kind == 'a' and st.place.is_local() and st.place.local == 0:
+                    src = st.rv.ops[0] if st.rv.ops else st.rv.place
+                    fl = flow_back(tx, d, src, all_args=False)
+                    if any(any(v.endswith("str::get") for v in f.via) for f in fl):
+                        ret_from_get = True
+        if good and ret_from_get:
+            chk.ok("R19.6", "text-is-line[range]", "line.get(span.range) of the highlighted line itself", function=tx.name)
+        else:
+            chk.fail("R19.6", tx.name, "text-not-line-slice", "Highlighted::text no longer returns the slice of the highlighted line selected by the span's own range "
+                     "(slice of line by range: %s, returned: %s)" % (good, ret_from_get))
+    n = 0
+    for b, bb, t in prog.callers_of(MOD + "highlight_command", crates=SHIPPED):
+        fn = owner(b.name)
+        if "::tests::" in fn or fn.startswith(MOD):
+            continue
+        n += 1
+        c = cfg_of(b)
+        d = defs_of(b)
+        from dataflow import base_local
+        la = base_local(b, d, t.args[1])
+        if not (la is not None and 1 <= la <= b.argc):
+            chk.fail("R19.6", fn, "line-not-the-typed-line", "%s does not pass its own line argument to highlight_command" % fn)
+            continue
+        pushes = [pb for pb, pt in b.calls() if (pt.best_callee() or "").endswith("StyledText::push")]
+        loops = c.source_loops()
+        done = False
+        for h, blks in loops.items():
+            nexts = [x for x in blks if b.blocks[x].term.kind == "call" and (b.blocks[x].term.best_callee() or b.blocks[x].term.callee or "").endswith("Iterator::next")]
+            if not nexts:
+                continue
+            fl = flow_back(b, d, b.blocks[nexts[0]].term.args[0], all_args=False)
+            if not any(any(v.endswith("Highlighted::iter") for v in f.via) for f in fl):
+                continue
+            done = True
+            sw = b.blocks[nexts[0]].term.target
+            some = [tg for v, tg in b.blocks[sw].term.targets if v == 1] if b.blocks[sw].term.kind == "switch" else []
+            inl = [p for p in pushes if p in blks]
+            latch = [x for x in blks if h in c.succ[x]]
+            # skipping an item whose text is empty changes nothing that is rendered
+            benign = []
+            for x in blks:
+                tx_ = b.blocks[x].term
+                if tx_.kind != "switch":
+                    continue
+                for o in origins(b, d, tx_.discr):
+                    if not (o.kind == 'call' and (o.node.best_callee() or o.node.callee or "").endswith("str::is_empty")):
+                        continue
+                    # the text tested is the item's text itself (not a trimmed / transformed copy) ...
+                    rf = flow_back(b, d, o.node.args[0], all_args=False)
+                    direct = bool(rf) and all(f.via and f.via[0].endswith("Iterator::next") for f in rf if f.kind != 'const')
+                    # ... and nothing else is asked on the way to the next iteration
+                    tgt = tx_.otherwise
+                    straight = all(b.blocks[y].term.kind != "switch" for y in (c.reachable_from(tgt, avoid=[h]) & set(blks)))
+                    if direct and straight:
+                        benign.append(tgt)
+            if some and inl and c.escapes(some[0], inl, latch, after=False, avoid=benign) is None:
+                # pushed text derives from the item
+                pt = b.blocks[inl[0]].term
+                tf = flow_back(b, d, pt.args[1], all_args=True)
+                if any(any(v.endswith("Iterator::next") for v in f.via) for f in tf):
+                    chk.ok("R19.6", "consumer-pushes-every-item:" + fn.rsplit("::", 1)[-1], "StyledText::push of the item's text on every path of the loop", function=fn)
+                else:
+                    chk.fail("R19.6", fn, "pushed-text-not-item", "%s pushes text that does not come from the iterated span" % fn)
+            else:
+                chk.fail("R19.6", fn, "item-not-pushed-on-every-path", "%s skips the StyledText::push for some spans (a path from the item to the next iteration avoids it): "
+                         "the rendered line loses their text" % fn)
+        if not done:
+            chk.fail("R19.6", fn, "no-render-loop", "%s calls highlight_command but has no loop over Highlighted::iter" % fn)
+    chk.floor("R19.6", "consumers of highlight_command", n, 1)
